@@ -114,6 +114,18 @@ CHECKS = {
         "kernel sendfile are out of reach.",
         "5/C02",
     ),
+    "C06": (
+        "exploration",
+        "model-based history testing: Hypothesis-generated request histories on one ClientSession against scripted "
+        "misbehaving in-memory peers (surplus bytes, unsolicited responses while idle, truncation, EOF framing, close) "
+        "with exchange markers; invariant over the history",
+        "Every response handed to the caller must carry the marker of its own request in headers and body, a connection "
+        "the harness knows to be unusable must never receive another request, and a reused connection must have been "
+        "opened for the same independently computed endpoint identity.",
+        "Trusts vlib/memnet.py and the peer scripts; injected bytes are made to arrive before the next request is issued "
+        "(bytes still in flight at hand-off cannot be told from an answer by any client); histories are sequential.",
+        "5/C06",
+    ),
 }
 
 REASON_PENDING = "check not built yet in this round (design in DESIGN.md section 5); not claimed until it runs quietly on the unchanged tree"
